@@ -831,5 +831,17 @@ def subsubSet (td : TD) (idx1 idx2 idx3 : PyIndex) (v : Shape) : Except Err (Lis
     let w3 ← TorchSpec.setIndex R2.shape idx3'.items v
     pure (writeThrough R1 (writeThrough R2 w3)))
 
+/-- mirrors `td.set_at_(key, value, (i1, i2))` with a nested-tuple index ("multiple indexing"): `TensorDict._set_at_str` takes the
+    `_sub_index` branch — `entry[i1][i2][()]` — and `copy_`s the value into that tensor (broadcast as `copy_` does: no extra leading
+    dims). The entry changes only if both selections are views; otherwise the copy goes into a temporary and is lost (the
+    documented warning of that branch). -/
+def setAtMulti (shape : Shape) (i1 i2 : List Ix) (v : Shape) : Except Err (List Nat → Option (List Nat)) := do
+  let R1 ← TorchSpec.index shape i1
+  let R2 ← TorchSpec.index R1.shape i2
+  if !(decide (v.length ≤ R2.shape.length) && TorchSpec.valueOk v R2.shape) then .error .runtime
+  else if R1.view && R2.view then
+    pure (writeThrough R1 (writeThrough R2 (fun r => some (TorchSpec.valueCoord v R2.shape r))))
+  else pure (fun _ => none)
+
 end Td
 end TdVerif.C03
